@@ -233,11 +233,26 @@ def request_case(case, fail):
     em = PauliErrorModel(*dirs[case['error_model']], case['noise_deformation'])
     nt = False
     if case['kind'] == 'new-errors':
-        with SeededRNGPatch(case['rseed']):
-            status, body = post('/new-errors', payload)
+        # (the rate the backend hands to the noise model is recorded by
+        # wrapping the model's generate() from here)
+        seen_rates = []
+        orig_generate = PauliErrorModel.generate
+
+        def spy(self_, code_, error_rate, *a, **k):
+            seen_rates.append(float(error_rate))
+            return orig_generate(self_, code_, error_rate, *a, **k)
+        PauliErrorModel.generate = spy
+        try:
+            with SeededRNGPatch(case['rseed']):
+                status, body = post('/new-errors', payload)
+        finally:
+            PauliErrorModel.generate = orig_generate
         if status != 200:
             fail('new_errors_succeeds', f'HTTP {status}')
             return False
+        if seen_rates and any(r_ != float(case['p']) for r_ in seen_rates):
+            fail('new_errors_rate_is_requested_rate',
+                 f'requested p={case["p"]!r}, the noise model was sampled at {seen_rates}')
         with SeededRNGPatch(case['rseed']):
             want = np.asarray(em.generate(code, case['p']))
         got = np.asarray(body)
@@ -503,8 +518,10 @@ def request_cases(draw):
             'deformation': None,
             'noise_deformation': draw(st.sampled_from([None] + names)),
             'error_model': draw(st.sampled_from(['Pure X', 'Pure Y', 'Pure Z', 'Depolarizing'])),
-            'p': draw(st.sampled_from([0.0, 0.05, 0.1, 0.3])) if kind == 'new-errors'
-            else draw(st.sampled_from([0.05, 0.1, 0.3])),
+            # (the slider is continuous on [0, 0.5])
+            'p': draw(st.one_of(st.sampled_from([0.0, 0.05, 0.1, 0.3, 0.004, 0.0749, 0.255, 0.5]),
+                                st.floats(0, 0.5))) if kind == 'new-errors'
+            else draw(st.sampled_from([0.05, 0.1, 0.3, 0.0749])),
             'rseed': draw(st.integers(0, 2**30))}
     if kind == 'decode':
         offered = sorted(name for name, klass in gui.decoders.items()
